@@ -91,15 +91,25 @@ impl Check for C07 {
         "C07"
     }
     fn rule(&self) -> String {
-        "seeded directory populations (0..12 files, 3-6 distinct ranks so ties abound, random read marks incl. atime==mtime, stray subdirectories, seeded readdir order/batching, 5 timestamp granularities) x capacity 0..n+1 x 7 maintenance entry points (prune, plain set/put, stacked set/put, sharded set/put incl. the random other shard); the oracle is the classical clock queue up to tie order, applied to every maintenance episode cut out of the call trace plus a before/after tree diff. Non-trivial = the directory was over capacity; distinct = hash of (entry point, n, capacity, rank pattern, mark pattern, granularity)".to_string()
+        "seeded directory populations (0..12 files, 3-6 distinct ranks so ties abound, random read marks incl. atime==mtime, stray subdirectories, seeded readdir order/batching, 5 timestamp granularities) x capacity 0..n+1 x 7 maintenance entry points (prune, plain set/put, stacked set/put, sharded set/put incl. the random other shard); one run in 16 is a random operation history (15-70 ops on plain/sharded/stacked handles of 1-2 processes) whose every maintenance episode is judged the same way; the oracle is the classical clock queue up to tie order, applied to every maintenance episode cut out of the call trace plus a before/after tree diff. Non-trivial = the directory was over capacity; distinct = hash of (entry point, n, capacity, rank pattern, mark pattern, granularity)".to_string()
     }
     fn runs(&self, tier: Tier) -> u64 {
         match tier {
-            Tier::Quick => 120_000,
-            Tier::Thorough => 6_000_000,
+            Tier::Quick => 500_000,
+            Tier::Thorough => 25_000_000,
         }
     }
     fn run(&self, tape: &mut Tape, ctx: &RunCtx) -> RunOut {
+        if tape.draw(16) == 15 {
+            // history mode: every maintenance episode of a random history
+            let hp = crate::hist::HistParams { max_dirs: 2, allow_sharded: true, allow_stack: true, allow_readonly_handles: false, max_procs: 2, min_ops: 15, max_ops: 70, no_eviction: false, readonly_roots: 0, op_weights: crate::hist::OpWeights { get: 2, get_noread: 1, touch: 2, set: 4, put: 4, ensure: 1, gou: 1 }, final_prune: true };
+            let rep = crate::hist::run_history(tape, &hp, ctx.detail);
+            let ev = rep.nontrivial_evictions;
+            let mut out = crate::hist::to_runout(rep, &["sc"], ctx.detail);
+            out.nontrivial = ev > 0;
+            out.count("history_mode_runs", 1);
+            return out;
+        }
         let mut out = RunOut::default();
         let kn = draw_knobs(tape);
         let entry = *tape.pick(&[Entry07::Prune, Entry07::PlainSet, Entry07::PlainPut, Entry07::StackPut, Entry07::StackSet, Entry07::ShardedPut, Entry07::ShardedSet]);
